@@ -54,8 +54,8 @@ def aggregate(prop, results, *, assumptions, bounds, outside, stubs=(), extra_vi
                 r.get("cpu_s", 0), "; ".join(r.get("unknown_where", [])[:2])))
         else:
             decided += 1
-        if "twin_refuted" in r and not r["twin_refuted"] and r.get("paths", 0) > 0:
-            vacuous.append(r["name"])
+        if "twin_refuted" in r and not r["twin_refuted"] and r.get("exhausted") and not r.get("unknown", 0):
+            vacuous.append(r["name"])       # the whole tree was explored and no path reaches the end of the harness
         cells_ev.append(dict(name=r["name"], status=status, paths=r.get("paths", 0),
                              unknown=r.get("unknown", 0), exhausted=r.get("exhausted"),
                              ignored=r.get("ignored", 0), cpu_s=r.get("cpu_s", 0),
